@@ -155,6 +155,23 @@ Theorem C19_filters_opt_out : forall c f, c_fmode c = Some FOut ->
 Proof. exact filters_opt_out. Qed.
 Print Assumptions C19_filters_opt_out.
 
+(* -F and -N together: the -F calls with everything below them, minus the -N calls and everything
+   below those, wherever they are; without -F: everything minus the -N calls and what is below them *)
+Theorem C19_filters_mixed : forall c f, c_fmode c = Some FIn ->
+  fsel c 0 0 f = pick (is_kin c) (drop (is_kout c) f).
+Proof. exact filters_mixed. Qed.
+Print Assumptions C19_filters_mixed.
+
+Theorem C19_filters_opt_out_general : forall c f ci, c_fmode c = Some FOut -> fsel c ci 0 f = drop (is_kout c) f.
+Proof. exact filters_out_general. Qed.
+Print Assumptions C19_filters_opt_out_general.
+
+(* every call of the main module is traced whatever the library-call mode: removing the library
+   calls from the trace gives the program's own call forest *)
+Theorem C19_main_calls_all_traced : forall m f l, main_only (libprune m l f) = main_only f.
+Proof. exact main_calls_all_traced. Qed.
+Print Assumptions C19_main_calls_all_traced.
+
 (* pseudo-address table: the address-level automaton (what the C code does) is the symbolic one on
    the canonical symbols; the table only grows; every address handed to libmcount resolves through
    the final table (python.fake.sym) - and any extension of it - to the symbol of its event *)
@@ -166,3 +183,37 @@ Theorem C19_addresses_resolve : forall c md evs tab s,
   forall ext, resolve_hooks (tab' ++ ext) hs = map Some (snd (run c s sevs)).
 Proof. exact arun_resolves. Qed.
 Print Assumptions C19_addresses_resolve.
+
+(* The callback as a whole, on interpreter-level events (uftrace_trace_python from module
+   initialisation: call-depth test, naming, classification, address table, filters, library policy):
+   for every configuration, every sequence of call forests over a table of functions whose names
+   determine their symbols, followed by any returns of frames never called (script ended by an
+   exception): the counters are restored and the addresses handed to libmcount, resolved through
+   the symbol table written at exit, are exactly the traversal of the selected forests. *)
+Theorem C19_trace_python_spec : forall c md fns fs rets,
+  c_fixed c = true -> consistent md fns -> returns_only rets = true ->
+  let '(tab, s, hs) := trace_python c md (flat_map (ievents fns) fs ++ rets) in
+  s = st0 /\ resolve_hooks tab hs = map Some (select_all c (map (iforest_syms md fns) fs)).
+Proof. exact trace_python_spec. Qed.
+Print Assumptions C19_trace_python_spec.
+
+(* its hypothesis is decidable and checked on every generated case *)
+Theorem C19_consistentb_sound : forall md fns, consistentb md fns = true -> consistent md fns.
+Proof. exact consistentb_sound. Qed.
+Print Assumptions C19_consistentb_sound.
+
+Example C19_trace_python_example :
+  consistentb (Some (main_dir_of ex_main)) ex_fns = true /\ returns_only ex_rets = true /\
+  (let '(tab, s, hs) := trace_python (cfg_FN true) (Some (main_dir_of ex_main)) (ievents ex_fns ex_forest ++ ex_rets) in
+   hs = [AEnter 1; AEnter 2; AEnter 3; AExit; AExit; AExit] /\ length tab = 4%nat /\ s = st0).
+Proof. exact trace_python_example. Qed.
+Print Assumptions C19_trace_python_example.
+
+(* the two judgements of a run agree: an implementation output equal to the model's is accepted by
+   the specification checker applied at run time *)
+Theorem C19_checker_accepts_model : forall k,
+  consistent (option_map main_dir_of (k_pymain k)) (k_funcs k) ->
+  forallb (fun p => match fst p with Return => true | _ => false end) (k_raw k) = true ->
+  agrees k = true -> ok_case k = true.
+Proof. exact checker_accepts_model. Qed.
+Print Assumptions C19_checker_accepts_model.
